@@ -19,6 +19,7 @@ import (
 	gmsl "github.com/matrix-org/gomatrixserverlib"
 	"github.com/matrix-org/gomatrixserverlib/spec"
 	"github.com/matrix-org/util"
+	"github.com/tidwall/gjson"
 )
 
 func init() { areas["event"] = Area{Gen: genEvent, Exec: execEvent} }
@@ -298,8 +299,12 @@ func (r *Rng) buildEvent(o *Out, ver string) *built { return r.buildEventSized(o
 
 // buildEventSized: sizeTarget > 0 adds about that many bytes of padding to the content.
 func (r *Rng) buildEventSized(o *Out, ver string, sizeTarget int) *built {
+	return r.buildEventTyped(o, ver, sizeTarget, Pick(r, evTypes))
+}
+
+// buildEventTyped: the same with the event type chosen by the caller.
+func (r *Rng) buildEventTyped(o *Out, ver string, sizeTarget int, typ string) *built {
 	_, v3 := verFormat(ver)
-	typ := Pick(r, evTypes)
 	sg := Pick(r, signers)
 	pe := gmsl.ProtoEvent{Type: typ, SenderID: "@" + Pick(r, []string{"alice", "bob", "carol"}) + ":" + sg.name}
 	switch r.Intn(4) {
@@ -745,6 +750,334 @@ func equalLengthRedaction(ver string, built []byte, drop []string) pduMap {
 	return m
 }
 
+// ---- adversarial texts: duplicate member names, case variants of event-struct member names ----
+//
+// A Go map cannot hold two members with one name, so these texts are assembled member by member.
+
+type tmember struct {
+	key  string // the parsed key
+	kraw string // the key as written (quoted)
+	vraw string // the value as written
+}
+
+func textMembers(text []byte) []tmember {
+	var ms []tmember
+	gjson.ParseBytes(text).ForEach(func(k, v gjson.Result) bool {
+		ms = append(ms, tmember{k.String(), k.Raw, v.Raw})
+		return true
+	})
+	return ms
+}
+
+func membersText(ms []tmember) []byte {
+	var sb strings.Builder
+	sb.WriteByte('{')
+	for i, m := range ms {
+		if i > 0 {
+			sb.WriteByte(',')
+		}
+		sb.WriteString(m.kraw + ":" + m.vraw)
+	}
+	sb.WriteByte('}')
+	return []byte(sb.String())
+}
+
+func mkMember(key, vraw string) tmember { return tmember{key, string(rawStr(key)), vraw} }
+
+func delFirstMember(ms []tmember, key string) []tmember {
+	for i, m := range ms {
+		if m.key == key {
+			return append(append([]tmember{}, ms[:i]...), ms[i+1:]...)
+		}
+	}
+	return ms
+}
+
+func firstMember(ms []tmember, key string) int {
+	for i, m := range ms {
+		if m.key == key {
+			return i
+		}
+	}
+	return -1
+}
+
+// receivedHash: the content hash a receiving server computes for the text, step by step as receipt is described
+// (strip the locally added keys, canonicalise, drop signatures / unsigned / hashes, SHA-256) — on a text with
+// repeated members "drop" means the first occurrence, which is what makes the forgeries below work.
+func receivedHash(ver string, ms []tmember) (hash string, canonical []tmember, ok bool) {
+	f, _ := verFormat(ver)
+	strip := []string{"outlier", "destinations", "age_ts", "unsigned"}
+	if f != 1 {
+		strip = append(strip, "event_id")
+	}
+	for _, k := range strip {
+		ms = delFirstMember(ms, k)
+	}
+	cj, err := gmsl.CanonicalJSON(membersText(ms))
+	if err != nil {
+		return "", nil, false
+	}
+	canonical = textMembers(cj)
+	rest := canonical
+	for _, k := range []string{"signatures", "unsigned", "hashes"} {
+		rest = delFirstMember(rest, k)
+	}
+	sum := sha256.Sum256(membersText(rest))
+	return base64.RawStdEncoding.EncodeToString(sum[:]), canonical, true
+}
+
+// rehashMembers makes the (first) hashes member match what the receiver computes (appended when there is none).
+func rehashMembers(ver string, ms []tmember) []tmember {
+	if firstMember(ms, "hashes") < 0 {
+		ms = append(ms, mkMember("hashes", `{"sha256":"`+strings.Repeat("A", 43)+`"}`))
+	}
+	h, _, ok := receivedHash(ver, ms)
+	if !ok {
+		return ms
+	}
+	out := append([]tmember{}, ms...)
+	out[firstMember(out, "hashes")].vraw = `{"sha256":"` + h + `"}`
+	return out
+}
+
+const forgedPlaceholder = "FORGEDFORGEDFORGEDFORGEDFORGEDFORGEDFORGEDF"
+
+// forgedHashes: somebody else's signed event with its content changed and a SECOND, forged hashes member, placed
+// before or after the genuine one.  The hash check reads the first hashes member of the canonical text and hashes
+// the text without it (the other hashes member stays in); redaction, signature check and event ID go through a Go map
+// (last member wins).  When the forged member ends up first, the event passes the hash check with the tampered
+// content while ID and signatures are the genuine event's.
+func forgedHashes(ver string, genuine []byte, forgedFirst bool) ([]byte, bool) {
+	m := toMap(genuine)
+	gh, ok := m["hashes"]
+	if !ok {
+		return nil, false
+	}
+	editContent(m, func(c pduMap) { c["body"] = rawStr("FORGED"); c["zz_forged"] = json.RawMessage("true") })
+	delete(m, "hashes")
+	base, err := gmsl.CanonicalJSON(m.text())
+	if err != nil {
+		return nil, false
+	}
+	ms := textMembers(base)
+	forged := mkMember("hashes", `{"sha256":"`+forgedPlaceholder+`"}`)
+	genu := mkMember("hashes", string(gh))
+	if forgedFirst {
+		ms = append([]tmember{forged, genu}, ms...)
+	} else {
+		ms = append([]tmember{genu, forged}, ms...)
+	}
+	h, canonical, ok := receivedHash(ver, ms)
+	if !ok {
+		return nil, false
+	}
+	works := strings.Contains(canonical[firstMember(canonical, "hashes")].vraw, forgedPlaceholder)
+	return []byte(strings.Replace(string(membersText(ms)), forgedPlaceholder, h, 1)), works
+}
+
+// dupValue: another well-typed value for a second member of that name.
+func (r *Rng) dupValue(ver, key string) string {
+	_, v3 := verFormat(ver)
+	switch key {
+	case "unsigned":
+		return `{"age":1,"forged":true}`
+	case "signatures":
+		return `{"evil":{"ed25519:x":"c2ln"}}`
+	case "content":
+		return `{"forged":true,"membership":"join"}`
+	case "type":
+		return `"m.room.power_levels"`
+	case "sender":
+		return `"@mallory:evil"`
+	case "room_id":
+		if v3 {
+			return string(rawStr("!" + r.id43()))
+		}
+		return `"!other:evil"`
+	case "state_key":
+		return `"forged"`
+	case "depth", "origin_server_ts":
+		return "7"
+	case "prev_events", "auth_events":
+		return "[]"
+	case "redacts", "event_id":
+		return `"$forged:evil"`
+	case "hashes":
+		return `{"sha256":"` + strings.Repeat("A", 43) + `"}`
+	case "sticky", "msc4354_sticky":
+		return `{"duration_ms":1000}`
+	}
+	return "1"
+}
+
+var dupTopKeys = []string{"unsigned", "signatures", "content", "type", "sender", "room_id", "state_key", "depth", "origin_server_ts",
+	"prev_events", "auth_events", "hashes", "redacts", "event_id", "extra"}
+
+// event-struct JSON names and their case variants under Unicode simple case folding (U+017F folds to s, U+212A to k)
+var structNameVariants = [][]string{
+	{"room_id", "Room_id", "ROOM_ID", "room_ID"},
+	{"sender", "Sender", "SENDER", "ſender"},
+	{"type", "Type", "TYPE", "tYPE"},
+	{"state_key", "State_key", "STATE_KEY", "ſtate_key", "state_Key"},
+	{"content", "Content", "CONTENT"},
+	{"redacts", "Redacts", "REDACTS", "redactſ"},
+	{"depth", "Depth", "DEPTH"},
+	{"unsigned", "Unsigned", "UNSIGNED", "unſigned"},
+	{"origin_server_ts", "Origin_server_ts", "ORIGIN_SERVER_TS", "origin_ſerver_ts"},
+	{"event_id", "Event_id", "EVENT_ID"},
+	{"prev_events", "Prev_events", "PREV_EVENTS", "prev_eventſ"},
+	{"auth_events", "Auth_events", "AUTH_EVENTS", "auth_eventſ"},
+	{"msc4354_sticky", "Msc4354_sticky", "MSC4354_STICKY", "msc4354_ſticky", "msc4354_sticKy"},
+	{"sticky", "Sticky", "STICKY", "ſticky", "sticKy"},
+}
+
+// foldVariantText: the built event with a case variant of an event-struct member name: alone (the exact key is
+// gone), beside a null exact key, after an over-long exact key, or before / after the exact key with another value.
+func (r *Rng) foldVariantText(ver string, base []byte, name, variant string, mode int, rehash bool) ([]byte, string) {
+	ms := textMembers(base)
+	i := firstMember(ms, name)
+	val := r.dupValue(ver, name)
+	lab := "fold." + name
+	switch {
+	case mode == 0 && i >= 0: // alone: the variant carries the genuine value, the exact key is gone
+		val = ms[i].vraw
+		ms = delFirstMember(ms, name)
+		ms = append(ms, mkMember(variant, val))
+		lab += ".alone"
+	case mode == 1 && i >= 0: // the exact key is null, the variant carries the genuine value
+		val = ms[i].vraw
+		ms[i].vraw = "null"
+		ms = append([]tmember{mkMember(variant, val)}, ms...)
+		lab += ".exact-null"
+	case mode == 2 && (name == "type" || name == "sender" || name == "state_key" || name == "room_id"):
+		// the exact key exceeds the length limit, the variant (decoded after it) is short
+		long := map[string]string{"type": "m." + strings.Repeat("a", 300), "sender": "@" + strings.Repeat("a", 300) + ":hs1",
+			"state_key": strings.Repeat("a", 300), "room_id": "!" + strings.Repeat("a", 300) + ":hs1"}[name]
+		short := `"m.x"`
+		if i >= 0 {
+			short = ms[i].vraw
+			ms[i].vraw = string(rawStr(long))
+		} else {
+			ms = append(ms, mkMember(name, string(rawStr(long))))
+		}
+		ms = append(ms, mkMember(variant, short))
+		lab += ".exact-overlong"
+	case mode == 3:
+		ms = append([]tmember{mkMember(variant, val)}, ms...)
+		lab += ".before"
+	default:
+		ms = append(ms, mkMember(variant, val))
+		lab += ".after"
+	}
+	if rehash {
+		ms = rehashMembers(ver, ms)
+		lab += "+rehash"
+	}
+	return membersText(ms), lab
+}
+
+// genAdversarial: receipt of texts that do not denote one event (C04 / C03 / C06 / C17 / C18): the specification
+// stream answers `refused` for every one of them.
+func genAdversarial(o *Out, r *Rng, b *built, k int) {
+	ver, id := b.ver, b.pdu.EventID()
+	base, err := gmsl.CanonicalJSON(b.json)
+	if err != nil {
+		return
+	}
+	for j := 0; j < k; j++ {
+		switch r.Intn(7) {
+		case 0: // a forged second hashes member
+			first := r.Bool()
+			if t, works := forgedHashes(ver, b.json, first); t != nil {
+				lab := "dup.hashes-forged.second"
+				if first {
+					lab = "dup.hashes-forged.first"
+				}
+				if works {
+					lab += ".read-by-hash-check"
+				}
+				emitParseAll(o, r, lab, ver, t, id)
+			}
+		case 1: // a second top-level member, before or after the genuine one, with / without a matching hash
+			key := Pick(r, dupTopKeys)
+			ms := textMembers(base)
+			extra := mkMember(key, r.dupValue(ver, key))
+			lab := "dup.top." + key
+			if firstMember(ms, key) < 0 {
+				ms = append(ms, mkMember(key, r.dupValue(ver, key)))
+			}
+			if r.Bool() {
+				ms = append([]tmember{extra}, ms...)
+				lab += ".before"
+			} else {
+				ms = append(ms, extra)
+				lab += ".after"
+			}
+			if r.Chance(60) {
+				ms = rehashMembers(ver, ms)
+				lab += "+rehash"
+			}
+			emitParseAll(o, r, lab, ver, membersText(ms), id)
+		case 2: // a repeated member inside content (member events: the authorising user of a restricted join) or deeper
+			ms := textMembers(base)
+			lab := "dup.content"
+			var content string
+			switch r.Intn(3) {
+			case 0:
+				content = `{"join_authorised_via_users_server":"@mallory:evil","membership":"join","join_authorised_via_users_server":"@admin:hs1"}`
+				ms[firstMember(ms, "type")].vraw = `"m.room.member"`
+				if i := firstMember(ms, "state_key"); i >= 0 {
+					ms[i].vraw = ms[firstMember(ms, "sender")].vraw
+				} else {
+					ms = append(ms, mkMember("state_key", ms[firstMember(ms, "sender")].vraw))
+				}
+				lab += ".authorised-via"
+			case 1:
+				cm := textMembers([]byte(ms[firstMember(ms, "content")].vraw))
+				key := "membership"
+				if len(cm) > 0 {
+					key = Pick(r, cm).key
+				}
+				cm = append(cm, mkMember(key, Pick(r, []string{`"leave"`, `1`, `null`, `{}`})))
+				content = string(membersText(cm))
+				lab += ".key"
+			default:
+				cm := textMembers([]byte(ms[firstMember(ms, "content")].vraw))
+				cm = append(cm, mkMember("nested", `{"a":[1,{"k":1,"k":2}]}`))
+				content = string(membersText(cm))
+				lab += ".deep"
+			}
+			ms[firstMember(ms, "content")].vraw = content
+			if r.Chance(70) {
+				ms = rehashMembers(ver, ms)
+				lab += "+rehash"
+			}
+			emitParseAll(o, r, lab, ver, membersText(ms), id)
+		case 3: // a repeated member inside unsigned / signatures / hashes
+			ms := textMembers(base)
+			key := Pick(r, []string{"signatures", "hashes", "unsigned"})
+			i := firstMember(ms, key)
+			if i < 0 {
+				ms = append(ms, mkMember(key, "{}"))
+				i = len(ms) - 1
+			}
+			inner := textMembers([]byte(ms[i].vraw))
+			if len(inner) > 0 {
+				inner = append(inner, inner[r.Intn(len(inner))])
+			} else {
+				inner = []tmember{mkMember("a", "1"), mkMember("a", "2")}
+			}
+			ms[i].vraw = string(membersText(inner))
+			emitParseAll(o, r, "dup.inside."+key, ver, membersText(ms), id)
+		default: // a case variant of an event-struct member name
+			fam := Pick(r, structNameVariants)
+			t, lab := r.foldVariantText(ver, base, fam[0], fam[1+r.Intn(len(fam)-1)], r.Intn(5), r.Chance(75))
+			emitParseAll(o, r, lab, ver, t, id)
+		}
+	}
+}
+
 func emitParseAll(o *Out, r *Rng, label, ver string, text []byte, id string) {
 	hv := ver
 	im := o.Do("parse_untrusted", hv, hx(text))
@@ -864,6 +1197,14 @@ func genEvent(o *Out, tier string, r *Rng) {
 			if red, err := gmsl.MustGetRoomVersion(gmsl.RoomVersion(ver)).RedactEventJSON(b.json); err == nil && r.Chance(50) {
 				emitParseAll(o, r, "redacted-form", ver, red, id)
 			}
+			// room versions whose room ID derives from the create event: the C03 relations on a create event, every round
+			if _, v3 := verFormat(ver); v3 {
+				if cb := r.buildEventTyped(o, ver, 0, "m.room.create"); cb != nil {
+					genEventProps(o, r, cb)
+				}
+			}
+			// texts that do not denote one event: repeated member names, case variants of event-struct member names
+			genAdversarial(o, r, b, 4)
 			// styles: the same event with whitespace / escapes / shuffled members
 			if r.Chance(30) {
 				var jv interface{}
